@@ -14,7 +14,7 @@ from .control import ControlWorld, gen_command, public_members
 
 
 def gen_scenario(rng):
-    return {"cls": rng.choice(["T", "T", "S"]), "size": rng.choice([None, None, 1, 2, 3]), "seed": rng.getrandbits(48),
+    return {"cls": rng.choice(["T", "T", "S", "XT", "XS"]), "size": rng.choice([None, None, 1, 2, 3]), "seed": rng.getrandbits(48),
             "n": rng.randint(5, 30), "sfunc": rng.choice(["work", "work", "block", "fail"]), "width": rng.choice([80, 80, 60, 200])}
 
 
@@ -30,7 +30,16 @@ class World(ControlWorld):
         kw = {} if self.sc["size"] is None else {"pool_size": self.sc["size"]}
         if self.sc["cls"] == "T":
             return P.TaskPool(name="twin", **kw)
-        return P.SimpleTaskPool(getattr(targets, self.sc["sfunc"]), args=(1, 2), kwargs={"k": 3}, name="twin",
+        if self.sc["cls"] == "XT":
+            from . import extpools
+
+            return extpools.ExtTaskPool(name="twin", **kw)
+        cls = P.SimpleTaskPool
+        if self.sc["cls"] == "XS":
+            from . import extpools
+
+            cls = extpools.ExtSimpleTaskPool
+        return cls(getattr(targets, self.sc["sfunc"]), args=(1, 2), kwargs={"k": 3}, name="twin",
                                 end_callback=targets.ecb, cancel_callback=targets.ccb, **kw)
 
     async def direct(self, twin, cmd):
